@@ -264,7 +264,9 @@ def check(report, tier, only=None):
                            '(HashMap<PeerId, PeerInfo> = the known-peers table, ActivePeersInner = the connection map; locks not poisoned); '
                            'HashMap::{get,len,contains_key} fork-based finite-map contract; tokio::time::timeout contract (inner future polled, Elapsed only while it is pending); '
                            'Config::max_concurrent_connections and Connection::peer_id are interface points (public accessors)']
-    obs = [ob_admission, ob_dials_not_limited, ob_known_get, ob_known_insert, lambda rep: dial.ob_dial_task(rep, PROP)]
+    from props import C03
+    # an acknowledged (admitted) connection is always registered: nothing after the admission decision may drop it
+    obs = [ob_admission, C03.ob_connecting_result, ob_dials_not_limited, ob_known_get, ob_known_insert, lambda rep: dial.ob_dial_task(rep, PROP)]
     for f in obs:
         if only and not any(s in getattr(f, '__name__', 'dial') for s in only):
             continue
